@@ -25,6 +25,8 @@ fn main() {
         .into_string()
         .unwrap_or(String::new());
 
+    let mut failed = false;
+
     match build_file(opt.source.clone(), btreeset! { get_standard_includes() }) {
         Ok(built) => {
             // write to file code
@@ -55,10 +57,13 @@ fn main() {
 
                 match write_code_hex(outpath, &built) {
                     Ok(()) => {}
-                    Err(e) => println!(
-                        "Failed to generate and write hex file {}, with error {}",
-                        file_name, e
-                    ),
+                    Err(e) => {
+                        failed = true;
+                        println!(
+                            "Failed to generate and write hex file {}, with error {}",
+                            file_name, e
+                        )
+                    }
                 }
             } else {
                 println!("Nothing to write of code for file {}", file_name);
@@ -91,10 +96,13 @@ fn main() {
 
                 match write_eeprom_hex(outpath, &built) {
                     Ok(()) => {}
-                    Err(e) => println!(
-                        "Failed to generate and write hex file {}, with error {}",
-                        file_name, e
-                    ),
+                    Err(e) => {
+                        failed = true;
+                        println!(
+                            "Failed to generate and write hex file {}, with error {}",
+                            file_name, e
+                        )
+                    }
                 }
             } else {
                 println!("Nothing to write of eeprom for file {}", file_name);
@@ -128,7 +136,12 @@ fn main() {
             }
         }
         Err(e) => {
+            failed = true;
             println!("Failed to build file {}, with error {}", file_name, e);
         }
+    }
+
+    if failed {
+        std::process::exit(1);
     }
 }
